@@ -126,7 +126,7 @@ theorem nodup_insert_mid (a b fs : List Nat) (f : Nat) (h : (a ++ b ++ f :: fs).
 
 /-- linking the head `f` of the free list in front of position `k` of the chain -/
 theorem link_rep (p : PList) (xs fs : List Nat) (f : Nat) (s : LState) (h : Rep p xs (f :: fs) s)
-    (k : Nat) (hk : k ≤ xs.length) (v : Int) :
+    (k : Nat) (_hk : k ≤ xs.length) (v : Int) :
     Rep (link p f ((xs.drop k).headD 0) v) (xs.take k ++ f :: xs.drop k) fs
       { s with nodes := s.nodes.take k ++ (f - 1, v) :: s.nodes.drop k, free := s.free.tail } := by
   -- names
@@ -618,7 +618,7 @@ theorem clearLoop_spec : ∀ (b : List Nat) (p : PList) (acc : List Nat) (fuel :
       | succ i =>
         have hnd' : (b ++ (i + 1) :: acc).Nodup := by
           have p' : (b ++ (i + 1) :: acc).Perm ((i + 1) :: b ++ acc) := by
-            simpa using (List.perm_middle (a := i + 1) (l₁ := b) (l₂ := acc))
+            simp [List.perm_middle (a := i + 1) (l₁ := b) (l₂ := acc)]
           exact p'.nodup_iff.2 hnd
         have y_notin_acc : (i + 1) ∉ acc := by
           intro hm
